@@ -3,6 +3,7 @@
    harness/props/c04.py). *)
 From Coq Require Import List Arith Permutation.
 From PTN Require Import TTN.Store Contr.Blocks Contr.BlocksProofs Contr.Closed Contr.ClosedProofs.
+From PTN Require Import TTN.Inv Wire.Sem Wire.SemProofs TEBD.Trotter Contr.TensorProd Contr.TensorProdProofs Contr.TensorProdSem.
 Import ListNotations.
 
 (* TTNO.as_matrix transposes the contracted operator by evens ++ odds: a permutation of its 2n legs
@@ -265,3 +266,178 @@ Example C04_three_ok_example :
   three_ok 2000 (fst (run empty_store kops)) (fst (run (store_at 1000 100) oops)) = true.
 Proof. vm_compute. reflexivity. Qed.
 Print Assumptions C04_three_ok_example.
+
+(* ==== completely_contract_tree / as_matrix, tensor products, centre shortcuts (Contr/TensorProd*.v) ========================= *)
+(* completely_contract_tree as a program over the store (pre-order recursion, each child contracted into its parent under
+   the parent's identifier): on EVERY well-formed store it succeeds; the returned order is the pre-order; exactly one node
+   (the root) is left; its tensor has the atoms of the whole network, as open axes the open wires of the nodes in pre-order
+   (each node's open legs in node order) and every other wire end bound -- in particular every tree edge *)
+Theorem C04_complete_contraction : forall s : store, wfb s = true ->
+  exists r s' t, root s = Some r /\ complete_contraction s = Some (s', t, preorder s) /\
+    wfb s' = true /\ akeys (nodes s') = [r] /\
+    axes t = flat_map (ow s) (preorder s) /\
+    Permutation (atoms t) (total_atoms s) /\
+    Permutation (axes t ++ bnd t ++ bnd t) (total_ends s) /\
+    (forall m w, In w (pw s m) -> In w (bnd t)) /\
+    Permutation (preorder s) (akeys (nodes s)).
+Proof. exact complete_contraction_spec. Qed.
+Print Assumptions C04_complete_contraction.
+
+(* TTNO.as_matrix (two open legs (output, input) per node): the transposition evens ++ odds of the full contraction has
+   first the output wires of the nodes in contraction (pre-) order, then the input wires in the same order *)
+Theorem C04_as_matrix_is_full_contraction : forall (s : store) (o i : id -> wire), wfb s = true ->
+  (forall m, In m (akeys (nodes s)) -> ow s m = [o m; i m]) ->
+  exists s' t, complete_contraction s = Some (s', t, preorder s) /\
+    as_matrix s = Some (s_transpose (evens_odds (length (axes t))) t, preorder s) /\
+    axes (s_transpose (evens_odds (length (axes t))) t) = map o (preorder s) ++ map i (preorder s) /\
+    Permutation (atoms t) (total_atoms s) /\
+    Permutation (axes t ++ bnd t ++ bnd t) (total_ends s) /\
+    (forall m w, In w (pw s m) -> In w (bnd t)).
+Proof. exact as_matrix_spec. Qed.
+Print Assumptions C04_as_matrix_is_full_contraction.
+
+Theorem C04_evens_odds_even : forall n : nat, evens_odds (2 * n) = as_matrix_perm n.
+Proof. exact evens_odds_even. Qed.
+Print Assumptions C04_evens_odds_even.
+
+(* absorb_into_open_legs at a site of a consistent pair of states: the factor is a fresh atom on (fresh output wire, the
+   site's open wire); the site's tensor keeps its virtual legs, gets the output wire as its open leg and binds the old one *)
+Theorem C04_absorb_site : forall (ket bra : store) (p : option id) (a : id) (cs : list id) (gshape : list nat) (ket' : store),
+  Closed.node_ok ket bra p a cs -> absorb_open ket a gshape = Some ket' ->
+  exists kn, aget a (nodes ket) = Some kn /\ aget a (nodes ket') = Some (reset_permutation kn) /\
+    (forall m, m <> a -> aget m (nodes ket') = aget m (nodes ket) /\ tensor_of ket' m = tensor_of ket m) /\
+    t_axes ket' a = opt_list p (up_wire ket a) ++ map (up_wire ket) cs ++ [next_wire ket] /\
+    t_atoms ket' a = t_atoms ket a ++ [next_atom ket] /\
+    t_bnd ket' a = open_wire ket a :: t_bnd ket a /\
+    root ket' = root ket /\ next_wire ket' = S (next_wire ket) /\ next_atom ket' = S (next_atom ket) /\
+    (exists d, dims ket' = dims ket ++ [(next_wire ket, d)]) /\
+    atab ket' = atab ket ++ [(next_atom ket, [next_wire ket; open_wire ket a])].
+Proof. exact absorb_site. Qed.
+Print Assumptions C04_absorb_site.
+
+(* tensor_product_expectation_value, general path (deep copy, conjugate of the ORIGINAL state, apply_operator,
+   contract_two_ttns), for every well-formed state with one open leg per node and every product of single-site operators
+   on distinct sites (0 .. N of them): the closed network in which each factor site's open wire is bound to the factor's
+   input, the factor's output wire is glued to the conjugate copy's open wire, the other sites have ket and conjugate open
+   wires glued directly, and every edge wire of both copies is bound once *)
+Theorem C04_tp_expectation_closed : forall (woff aoff : nat) (s : store) (ops : list (id * list nat)) (t : rt),
+  wf s -> wf_two s (conj_store woff aoff s) t ->
+  NoDup (map fst ops) -> (forall o, In o ops -> In (fst o) (rnodes t)) ->
+  next_wire s + length ops <= woff ->
+  (forall o, In o ops -> snd o = [wdim s (open_wire s (fst o)); wdim s (open_wire s (fst o))]) ->
+  let bra := conj_store woff aoff s in
+  exists ket g, tp_apply s ops = Some ket /\ tp_expectation woff aoff s ops = Some g /\ gaxes g = [] /\
+    Permutation (gatoms g) (all_atoms s bra (rnodes t) ++ seq (next_atom s) (length ops)) /\
+    Permutation (gbnd g) (Closed.edge_wires s bra (rdesc t) ++ inner_bnd s bra (rnodes t) ++ map (fun o => open_wire s (fst o)) ops) /\
+    Permutation (gglue g) (map (tp_pair woff s ops) (rnodes t)) /\
+    atab ket = atab s ++ tp_rows s ops.
+Proof. exact tp_expectation_closed. Qed.
+Print Assumptions C04_tp_expectation_closed.
+
+(* the same with the decidable hypothesis evaluated per explored instance *)
+Theorem C04_tp_hyp_closed : forall (woff aoff : nat) (s : store) (ops : list (id * list nat)), tp_hyp woff aoff s ops = true ->
+  let bra := conj_store woff aoff s in
+  exists t ket g, ket_tree s = Some t /\ tp_apply s ops = Some ket /\ tp_expectation woff aoff s ops = Some g /\ gaxes g = [] /\
+    Permutation (gatoms g) (all_atoms s bra (rnodes t) ++ seq (next_atom s) (length ops)) /\
+    Permutation (gbnd g) (Closed.edge_wires s bra (rdesc t) ++ inner_bnd s bra (rnodes t) ++ map (fun o => open_wire s (fst o)) ops) /\
+    Permutation (gglue g) (map (tp_pair woff s ops) (rnodes t)) /\
+    atab ket = atab s ++ tp_rows s ops.
+Proof. exact tp_hyp_closed. Qed.
+Print Assumptions C04_tp_hyp_closed.
+
+(* the empty product is exactly scalar_product(): the same diagram as <psi|psi>, or the centre shortcut *)
+Theorem C04_tp_expectation_empty : forall (woff aoff : nat) (s : store),
+  tp_expectation woff aoff s [] = contract_two_ttns s (conj_store woff aoff s) /\
+  tp_expectation_value woff aoff s None [] = contract_two_ttns s (conj_store woff aoff s) /\
+  forall c, tp_expectation_value woff aoff s (Some c) [] = center_norm woff aoff s c.
+Proof. exact tp_expectation_empty. Qed.
+Print Assumptions C04_tp_expectation_empty.
+
+(* which path tensor_product_expectation_value takes *)
+Theorem C04_tp_expectation_value_dispatch : forall (woff aoff : nat) (s : store) (ctr : option id) (ops : list (id * list nat)),
+  tp_expectation_value woff aoff s ctr ops =
+  match ops, ctr with
+  | [], Some c => center_norm woff aoff s c
+  | [(n, _)], Some c => if Nat.eqb c n then center_single_site woff aoff s n else tp_expectation woff aoff s ops
+  | _, _ => tp_expectation woff aoff s ops
+  end.
+Proof. exact tp_expectation_value_dispatch. Qed.
+Print Assumptions C04_tp_expectation_value_dispatch.
+
+(* the diagrams of the two orthogonality-centre shortcuts *)
+Theorem C04_center_norm_diagram : forall (woff aoff : nat) (s : store) (c : id) (t : sarr), 0 < woff -> logical s c = Some t ->
+  center_norm woff aoff s c =
+  Some {| gaxes := []; gatoms := atoms t ++ map (Nat.add aoff) (atoms t); gbnd := bnd t ++ map (Nat.add woff) (bnd t);
+          gglue := map (fun w => (w, woff + w)) (axes t) |}.
+Proof. exact center_norm_diagram. Qed.
+Print Assumptions C04_center_norm_diagram.
+
+Theorem C04_center_single_site_diagram : forall (woff aoff : nat) (s : store) (c : id) (t : sarr) (X : list wire) (o : wire),
+  0 < woff -> logical s c = Some t -> axes t = X ++ [o] ->
+  S (next_wire s) <> o -> next_wire s <> woff + o ->
+  center_single_site woff aoff s c =
+  Some {| gaxes := []; gatoms := (atoms t ++ [next_atom s]) ++ map (Nat.add aoff) (atoms t);
+          gbnd := bnd t ++ map (Nat.add woff) (bnd t);
+          gglue := (map (fun w => (w, woff + w)) X ++ [(next_wire s, woff + o)]) ++ [(o, S (next_wire s))] |}.
+Proof. exact center_single_site_diagram. Qed.
+Print Assumptions C04_center_single_site_diagram.
+
+(* ---- the semantic bridge for the centre shortcut, over any commutative semiring (Wire/Sem.v) ---------------------------- *)
+(* ONE isometry pair (Q on bond copy b, its conjugate twin Q' on bond copy b', sharing the summed wires S, contract:
+   SUM_S Q.Q' = delta(b, b') for in-range bond indices) is removed from a sum of products: the rest F of the network is
+   left with b' renamed to b *)
+Theorem C04_iso_pair_remove : forall (R : Type) (zero one : R) (add mul : R -> R -> R), comm_semiring zero one add mul ->
+  forall (dim : wire -> nat) (Q Q' : assignment -> R) (b b' : wire) (S : list wire) (F : (wire -> nat) -> R) (rho : wire -> nat),
+  iso_pair R zero one add mul dim Q Q' b b' S -> SemProofs.ext R F -> SemProofs.indep R F S ->
+  b <> b' -> dim b' = dim b -> rho b < dim b ->
+  sum_bnd R zero add dim (b' :: S) (fun r => mul (mul (Q r) (Q' r)) (F r)) rho = F (upd rho b' (rho b)).
+Proof. exact iso_pair_remove. Qed.
+Print Assumptions C04_iso_pair_remove.
+
+(* from the leaves toward the centre: the closed block of a subtree all of whose tensors are isometries toward the centre
+   is the identity on the two copies of its bond *)
+Theorem C04_block_delta : forall (R : Type) (zero one : R) (add mul : R -> R -> R), comm_semiring zero one add mul ->
+  forall (dim : wire -> nat) (u u' : id -> wire) (o : id -> list wire) (KA KB : id -> assignment -> R) (t : rt),
+  scoped R dim u u' o KA KB t -> NoDup (dsub u u' o t) -> isos R zero one add mul dim u u' o KA KB t ->
+  block R zero one add mul dim u u' o KA KB t.
+Proof. exact block_delta. Qed.
+Print Assumptions C04_block_delta.
+
+(* under the kernel contract "every tensor off the centre is an isometry from its bond toward the centre" (iso_atom, a
+   hypothesis on the atom table), the value of the closed network <psi|psi> (open legs of ket and conjugate copy
+   identified) equals the value of the local diagram at the centre: the centre atom against its conjugate twin read at
+   the same indices, summed over all the centre's legs *)
+Theorem C04_canonical_norm_is_local : forall (R : Type) (zero one : R) (add mul : R -> R -> R), comm_semiring zero one add mul ->
+  forall (wires_of : nat -> list wire) (dim : wire -> nat) (tbl : nat -> list nat -> R) (u u' : id -> wire) (o : id -> list wire)
+         (ka kb : id -> nat) (n : id) (cs : list rt),
+  atoms_ok wires_of dim u u' o ka kb (RN n cs) -> NoDup (dsub u u' o (RN n cs)) -> ~ In (u n) (wires_of (ka n)) ->
+  (forall x, In x cs -> atoms_iso R zero one add mul wires_of dim tbl u u' o ka kb x) ->
+  forall rho,
+    value R zero one add mul wires_of dim tbl (full_diagram u u' o ka kb (RN n cs)) rho
+    = sum_bnd R zero add dim (o n ++ cu u cs)
+        (fun r => mul (tbl (ka n) (map r (wires_of (ka n)))) (tbl (kb n) (map r (wires_of (ka n))))) rho.
+Proof. exact canonical_norm_is_local. Qed.
+Print Assumptions C04_canonical_norm_is_local.
+
+(* non-vacuity: a 4-node operator is contracted completely (result checker and wfb), a 4-node state takes two factors
+   (hypothesis and result checkers), and the isometry contract is satisfiable (two-node state over Z, value 46) *)
+Example C04_complete_contraction_example :
+  let oops := [AddRoot 0 [3; 2; 2; 2]; AddChild 2 [3; 2; 2] 0 0 0; AddChild 1 [2; 2; 2; 2] 0 0 1; AddChild 3 [2; 2; 2] 0 1 1] in
+  let s := fst (run empty_store oops) in
+  andb (wfb s) (complete_contraction_ok s) = true /\ option_map snd (as_matrix s) = Some [0; 2; 1; 3].
+Proof. vm_compute. split; reflexivity. Qed.
+Print Assumptions C04_complete_contraction_example.
+
+Example C04_tp_example :
+  let kops := [AddRoot 0 [2; 2; 3]; AddChild 1 [2; 2; 2] 0 0 0; AddChild 2 [3; 2] 0 0 2; AddChild 3 [2; 2] 0 1 1] in
+  let s := fst (run empty_store kops) in
+  andb (tp_hyp 2000 200 s [(1, [2; 2]); (0, [2; 2])]) (tp_result_ok 2000 200 s [(1, [2; 2]); (0, [2; 2])]) = true.
+Proof. vm_compute. reflexivity. Qed.
+Print Assumptions C04_tp_example.
+
+Example C04_iso_example :
+  atoms_ok ex_wires ex_dim ex_u ex_u' ex_o ex_ka ex_kb ex_tree /\
+  NoDup (dsub ex_u ex_u' ex_o ex_tree) /\ ~ In (ex_u 0) (ex_wires (ex_ka 0)) /\
+  atoms_iso BinNums.Z BinNums.Z0 (BinNums.Zpos BinNums.xH) BinInt.Z.add BinInt.Z.mul ex_wires ex_dim ex_tblZ ex_u ex_u' ex_o ex_ka ex_kb (RN 1 []).
+Proof. exact ex_iso_hypotheses. Qed.
+Print Assumptions C04_iso_example.
